@@ -3,7 +3,9 @@
 // compared with a linear reference dispatcher that uses the real per-route matcher (ref.go).
 // Tables: every sequence of <=2 entries over the full alphabet; every sequence of 3 entries over the
 // same-path / multi-method family (escaped/unescaped twin patterns, all multi-method registration sites,
-// 1 or 5 handlers per call); thorough adds every 3-entry sequence over a sub-alphabet.
+// 1 or 5 handlers per call); thorough adds every 3-entry sequence over a sub-alphabet. Small side families (side.go)
+// add dimensions the main product does not have: every method / custom RequestMethods lists, override targets that
+// need normalisation and other handler behaviours, registrations after start-up, the other registration sites.
 package main
 
 import (
@@ -18,6 +20,7 @@ import (
 	"strings"
 	"sync"
 	"time"
+	"unsafe"
 
 	"github.com/gofiber/fiber/v3"
 	"github.com/valyala/fasthttp"
@@ -47,7 +50,7 @@ type wstate struct {
 	broken   bool    // some registration's handlers did not run as one complete in-order chain
 	overflow bool
 	fctx     fasthttp.RequestCtx
-	reqs     [][]*fasthttp.Request               // [reqMethods][reqPaths]
+	reqs     [][]*fasthttp.Request               // [request-method id][reqPaths]
 	h        [maxLen][nBeh]fiber.Handler         // last handler of the chain of registration pos
 	pre      [maxLen][maxChain - 1]fiber.Handler // pass-through handlers in front of it (chains longer than 1)
 	chain    [maxChain]fiber.Handler
@@ -55,8 +58,11 @@ type wstate struct {
 	rt [maxLen][nMeth]*fiber.Route
 	hi [maxLen][nMeth]int
 	// reference results of the current (table, config), reused for both ctx kinds
-	ref [][]refResult
-	acc *acc
+	ref      [][]refResult
+	refEarly [][]refResult // late-registration tables: reference of the part registered before start-up
+	acc      *acc
+	ident    map[unsafe.Pointer]uint8 // handler value -> its trace code (pos<<3 | index in the chain)
+	fam      int                      // side family of the table being run (famMain: none)
 }
 
 const lastInChain = 7
@@ -126,38 +132,30 @@ func (ws *wstate) mk(pos uint8, beh int) fiber.Handler {
 			}
 			return c.Next()
 		}
-	case bPathABC:
-		return func(c fiber.Ctx) error {
-			if !enter() {
-				return nil
-			}
-			c.Path("/abc")
-			return c.Next()
-		}
-	case bPathX:
-		return func(c fiber.Ctx) error {
-			if !enter() {
-				return nil
-			}
-			c.Path("/x")
-			return c.Next()
-		}
+	case bError:
+		return func(c fiber.Ctx) error { enter(); return fiber.NewError(fiber.StatusForbidden) }
 	}
+	pt, mt := behPathTarget[beh], behMethTarget[beh]
 	return func(c fiber.Ctx) error {
 		if !enter() {
 			return nil
 		}
-		c.Method("POST")
+		if pt != "" {
+			c.Path(pt)
+		}
+		if mt != "" {
+			c.Method(mt)
+		}
 		return c.Next()
 	}
 }
 
 func newWstate() *wstate {
-	ws := &wstate{acc: newAcc()}
-	for _, m := range reqMethods {
+	ws := &wstate{acc: newAcc(), ident: map[unsafe.Pointer]uint8{}}
+	for _, name := range methUniverse {
 		var row []*fasthttp.Request
 		for _, p := range reqPaths {
-			rq := fx.Req(fiber.DefaultMethods[m], uriOf(p))
+			rq := fx.Req(name, uriOf(p))
 			rq.URI() // parse once; CopyTo then copies the parsed URI
 			row = append(row, rq)
 		}
@@ -166,34 +164,44 @@ func newWstate() *wstate {
 	for pos := 0; pos < maxLen; pos++ {
 		for b := 0; b < nBeh; b++ {
 			ws.h[pos][b] = ws.mk(uint8(pos), b)
+			ws.ident[fid(ws.h[pos][b])] = uint8(pos)<<3 | lastInChain
 		}
 		for j := 0; j < maxChain-1; j++ {
 			ws.pre[pos][j] = ws.mkPre(uint8(pos), uint8(j))
+			ws.ident[fid(ws.pre[pos][j])] = uint8(pos)<<3 | uint8(j)
 		}
 	}
 	// fx.CallInto once: attaches the fake connection / peer to this worker's RequestCtx. Afterwards the
 	// same ctx is re-used with only Request/Response reset per call (what CallInto does, minus Init2).
 	fx.CallInto(&ws.fctx, func(*fasthttp.RequestCtx) {}, ws.reqs[0][0], nil, false)
-	ws.ref = make([][]refResult, len(reqMethods))
+	ws.ref = make([][]refResult, len(methUniverse))
+	ws.refEarly = make([][]refResult, len(methUniverse))
 	for i := range ws.ref {
 		ws.ref[i] = make([]refResult, len(reqPaths))
+		ws.refEarly[i] = make([]refResult, len(reqPaths))
 	}
 	return ws
 }
 
-// build constructs the app for one table and records which route object each registration
-// produced (or was merged into) in every method stack.
-func (ws *wstate) build(tbl []entry, c cfgT, custom bool) (*fiber.App, fasthttp.RequestHandler) {
+// newApp makes an empty app of one configuration and ctx kind.
+func (ws *wstate) newApp(c cfgT, custom bool) *fiber.App {
 	app := fiber.New(c.fiber())
 	if custom {
 		app.NewCtxFunc(func(a *fiber.App) fiber.CustomCtx {
 			return &customCtx{DefaultCtx: *fiber.NewDefaultCtx(a)}
 		})
 	}
+	return app
+}
+
+// registerRange registers the entries tbl[from:to] and records which route object each registration
+// produced (or was merged into) in every method stack.
+func (ws *wstate) registerRange(app *fiber.App, tbl []entry, from, to int) {
 	var lens, hcs [nMeth]int
-	for i, e := range tbl {
+	for i := from; i < to; i++ {
+		e := tbl[i]
 		st := app.Stack()
-		for m := 0; m < nMeth; m++ {
+		for m := range st {
 			lens[m] = len(st[m])
 			hcs[m] = 0
 			if lens[m] > 0 {
@@ -202,18 +210,30 @@ func (ws *wstate) build(tbl []entry, c cfgT, custom bool) (*fiber.App, fasthttp.
 		}
 		register(app, e, ws.handlersOf(i, e))
 		st = app.Stack()
-		for m := 0; m < nMeth; m++ {
+		for m := range st {
 			ws.rt[i][m], ws.hi[i][m] = nil, 0
 			switch l := len(st[m]); {
-			case l == lens[m]+1:
-				ws.rt[i][m] = st[m][l-1]
-			case l == lens[m] && l > 0 && len(st[m][l-1].Handlers) == hcs[m]+e.chain():
+			case l > lens[m]:
+				if l-lens[m] > kindUnits(e.kind) {
+					core.Fatal("registration %v changed stack %d by %d routes", e, m, l-lens[m])
+				}
+				ws.rt[i][m] = st[m][lens[m]]
+			case l == lens[m] && l > 0 && len(st[m][l-1].Handlers) >= hcs[m]+e.chain():
 				ws.rt[i][m], ws.hi[i][m] = st[m][l-1], hcs[m] // duplicate path: merged into the previous route object
-			case l != lens[m]:
+			case l < lens[m]:
 				core.Fatal("registration %v changed stack %d by %d routes", e, m, l-lens[m])
 			}
 		}
+		for m := len(st); m < nMeth; m++ {
+			ws.rt[i][m], ws.hi[i][m] = nil, 0
+		}
 	}
+}
+
+// build constructs the app for one table, everything registered before start-up.
+func (ws *wstate) build(tbl []entry, c cfgT, custom bool) (*fiber.App, fasthttp.RequestHandler) {
+	app := ws.newApp(c, custom)
+	ws.registerRange(app, tbl, 0, len(tbl))
 	return app, app.Handler()
 }
 
@@ -226,14 +246,14 @@ type observed struct {
 	panicv string
 }
 
-func parseAllow(b []byte) (mask uint16, bad string) {
+func parseAllow(ci int, b []byte) (mask uint16, bad string) {
 	if len(b) == 0 {
 		return 0, ""
 	}
 	for _, part := range strings.Split(string(b), ",") {
 		part = strings.TrimSpace(part)
 		found := false
-		for i, n := range fiber.DefaultMethods {
+		for i, n := range mlist[ci] {
 			if n == part {
 				if mask&(1<<uint(i)) != 0 {
 					bad = "duplicate " + part
@@ -249,7 +269,7 @@ func parseAllow(b []byte) (mask uint16, bad string) {
 	return mask, bad
 }
 
-func (ws *wstate) call(h fasthttp.RequestHandler, req *fasthttp.Request, tbl []entry) (o observed) {
+func (ws *wstate) call(h fasthttp.RequestHandler, req *fasthttp.Request, tbl []entry, ci int) (o observed) {
 	ws.raw = ws.raw[:0]
 	ws.overflow = false
 	defer func() {
@@ -266,81 +286,127 @@ func (ws *wstate) call(h fasthttp.RequestHandler, req *fasthttp.Request, tbl []e
 	ws.collapse(tbl)
 	o.trace, o.raw = ws.trace, ws.raw
 	o.status = ws.fctx.Response.StatusCode()
-	o.allow, o.badAl = parseAllow(ws.fctx.Response.Header.Peek("Allow"))
+	o.allow, o.badAl = parseAllow(ci, ws.fctx.Response.Header.Peek("Allow"))
 	return o
 }
 
-// runTable evaluates one table under all configs and both ctx kinds.
-func (ws *wstate) runTable(tbl []entry, paths []int, l *core.Local, sampleIt bool) {
+// runTable evaluates one table under the item's configs and both ctx kinds. With it.late > 0 the last it.late
+// entries are registered AFTER start-up (app.Handler(), one round of requests judged against the early part),
+// followed by app.RebuildTree().
+func (ws *wstate) runTable(tbl []entry, it *item, sampleIt bool) {
 	a := ws.acc
-	for ci, c := range cfgs {
-		specific := false
+	ws.fam = it.fam
+	early := len(tbl) - it.late
+	for _, ci := range it.cfgs {
+		valid := true
 		for _, e := range tbl {
-			for _, m := range reqMethods {
-				if loneKey[ci][e.kind][e.pat][m] != 0 {
-					specific = true
-				}
-			}
+			valid = valid && kindValid[ci][e.kind]
+		}
+		if !valid {
+			continue // a method the configuration's RequestMethods does not have cannot be registered
 		}
 		for ctxKind := 0; ctxKind < 2; ctxKind++ {
-			app, h := ws.build(tbl, c, ctxKind == 1)
+			app := ws.newApp(cfgs[ci], ctxKind == 1)
 			a.apps++
-			for mi, m := range reqMethods {
-				for _, pi := range paths {
-					if ctxKind == 0 {
-						ws.ref[mi][pi] = refDispatch(ci, tbl, m, int(pathCanon[ci][pi]))
-					}
-					ref := &ws.ref[mi][pi]
-					o := ws.call(h, ws.reqs[mi][pi], tbl)
-					a.evals++
-					if ref.n > 0 || ref.status == 405 {
-						a.nontrivial++
-					}
-					if specific && pathHash[ci][pi] != 0 {
-						a.bucketed++ // the request selects by a 3-byte key and the table has a bucket-specific route
-					}
-					ov := 0
-					for k := 0; k < ref.n; k++ {
-						ov |= int(ref.eff[k])
-					}
-					if ov != 0 {
-						a.overrides++
-					}
-					if ref.n >= 2 {
-						a.multiRun++
-					}
-					for k := 0; k < ref.n; k++ {
-						if tbl[ref.trace[k]].cl != 0 {
-							a.chainRun++
-							break
-						}
-					}
-					if ref.spec && ref.status == 405 {
-						a.exp405++
-					}
-					ovObs := 0 // outcome classes use what was OBSERVED: status, handlers run, override handlers among them
-					for _, pos := range o.trace {
-						switch tbl[pos].beh {
-						case bPathABC, bPathX:
-							ovObs |= 1
-						case bMethPost:
-							ovObs |= 2
-						}
-					}
-					a.outcome(o.status, len(o.trace), ovObs)
-					ok := ws.judge(app, ci, ctxKind, tbl, mi, pi, ref, &o)
-					if sampleIt && ok && ci == 5 && ctxKind == 1 && mi == 0 && ref.n >= 2 && ov != 0 {
-						// keep the 6 candidates with the smallest mixed key: the union over all workers then contains
-						// the global 6 smallest whatever the scheduling was
-						sk := orderKey(tbl, ci, ctxKind, mi, pi) * 0x9E3779B97F4A7C15
-						if len(a.samples) < 6 || sk < a.samples[len(a.samples)-1].key {
-							a.samples = append(a.samples, sampleRec{sk,
-								map[string]any{"case": caseOf(tbl, ci, ctxKind, mi, pi), "observed": obsOf(&o, tbl), "expected": expOf(ref, tbl)}})
-							sort.Slice(a.samples, func(i, j int) bool { return a.samples[i].key < a.samples[j].key })
-							if len(a.samples) > 6 {
-								a.samples = a.samples[:6]
-							}
-						}
+			ws.registerRange(app, tbl, 0, early)
+			h := app.Handler()
+			if it.late > 0 {
+				ws.fire(app, h, ci, ctxKind, tbl[:early], 0, it, false, ws.refEarly)
+				ws.registerRange(app, tbl, early, len(tbl))
+				app.RebuildTree()
+			}
+			ws.fire(app, h, ci, ctxKind, tbl, it.late, it, sampleIt, ws.ref)
+		}
+	}
+}
+
+// fire sends the item's requests to one app and judges each against the reference of tbl.
+func (ws *wstate) fire(app *fiber.App, h fasthttp.RequestHandler, ci, ctxKind int, tbl []entry, late int, it *item, sampleIt bool, refs [][]refResult) {
+	a := ws.acc
+	specific := false
+	for _, e := range tbl {
+		for m := range mlist[ci] {
+			if loneKey[ci][e.kind][e.pat][0][m] != 0 || loneKey[ci][e.kind][e.pat][1][m] != 0 {
+				specific = true
+			}
+		}
+	}
+	for _, rm := range it.meths {
+		m := stackIdx[ci][rm]
+		for _, pi := range it.paths {
+			if m < 0 {
+				// not a method of this app: the statement is silent (fiber answers 501); only a panic is reported
+				o := ws.call(h, ws.reqs[rm][pi], tbl, ci)
+				a.evals++
+				a.famEvals[it.fam]++
+				a.unspecified++
+				a.unknownMethod++
+				a.outcome(o.status, len(o.trace), 0)
+				if o.panicv != "" {
+					a.violate("panic on a request method the app does not have", "the request panicked inside the router",
+						orderKey(tbl, late, ci, ctxKind, rm, pi), func() (any, any, any) {
+							return caseOf(tbl, late, ci, ctxKind, rm, pi), obsOf(&o, tbl, ci), "no panic"
+						})
+				}
+				continue
+			}
+			if ctxKind == 0 {
+				refs[rm][pi] = refDispatch(ci, tbl, m, int(pathCanon[ci][pi]))
+			}
+			ref := &refs[rm][pi]
+			o := ws.call(h, ws.reqs[rm][pi], tbl, ci)
+			a.evals++
+			a.famEvals[it.fam]++
+			if ref.n > 0 || ref.status == 405 {
+				a.nontrivial++
+			}
+			if specific && pathHash[ci][pi] != 0 {
+				a.bucketed++ // the request selects by a 3-byte key and the table has a bucket-specific route
+			}
+			ov := 0
+			for k := 0; k < ref.n; k++ {
+				ov |= int(ref.eff[k])
+			}
+			if ov != 0 {
+				a.overrides++
+			}
+			if ref.n >= 2 {
+				a.multiRun++
+			}
+			for k := 0; k < ref.n; k++ {
+				if tbl[ref.trace[k]].cl != 0 {
+					a.chainRun++
+					break
+				}
+			}
+			if ref.spec && ref.status == 405 {
+				a.exp405++
+			}
+			if it.fam != famMain && famHit(it.fam, ci, tbl, late, rm, ref) {
+				a.famHits[it.fam]++
+			}
+			ovObs := 0 // outcome classes use what was OBSERVED: status, handlers run, override handlers among them
+			for _, pos := range o.trace {
+				b := tbl[pos].beh
+				if behPathTarget[b] != "" {
+					ovObs |= 1
+				}
+				if behMethTarget[b] != "" {
+					ovObs |= 2
+				}
+			}
+			a.outcome(o.status, len(o.trace), ovObs)
+			ok := ws.judge(app, ci, ctxKind, tbl, late, rm, pi, ref, &o)
+			if sampleIt && ok && ci == 5 && ctxKind == 1 && rm == rmGET && ref.n >= 2 && ov != 0 {
+				// keep the 6 candidates with the smallest mixed key: the union over all workers then contains
+				// the global 6 smallest whatever the scheduling was
+				sk := orderKey(tbl, late, ci, ctxKind, rm, pi) * 0x9E3779B97F4A7C15
+				if len(a.samples) < 6 || sk < a.samples[len(a.samples)-1].key {
+					a.samples = append(a.samples, sampleRec{sk,
+						map[string]any{"case": caseOf(tbl, late, ci, ctxKind, rm, pi), "observed": obsOf(&o, tbl, ci), "expected": expOf(ref, ci)}})
+					sort.Slice(a.samples, func(i, j int) bool { return a.samples[i].key < a.samples[j].key })
+					if len(a.samples) > 6 {
+						a.samples = a.samples[:6]
 					}
 				}
 			}
@@ -348,9 +414,8 @@ func (ws *wstate) runTable(tbl []entry, paths []int, l *core.Local, sampleIt boo
 	}
 }
 
-// judge compares one observation with the reference; true = conforms (or unspecified).
-func (ws *wstate) judge(app *fiber.App, ci, ctxKind int, tbl []entry, mi, pi int, ref *refResult, o *observed) bool {
-	a := ws.acc
+// conforms: the observation equals the reference wherever the statement speaks.
+func (ws *wstate) conforms(ref *refResult, o *observed) (ok, unspecified bool) {
 	same := len(o.trace) == ref.n && o.panicv == "" && !ws.overflow && !ws.broken
 	if same {
 		for k := 0; k < ref.n; k++ {
@@ -360,62 +425,138 @@ func (ws *wstate) judge(app *fiber.App, ci, ctxKind int, tbl []entry, mi, pi int
 			}
 		}
 	}
-	if same {
-		if !ref.spec {
-			a.unspecified++
-			return true
-		}
-		if o.status == ref.status && (ref.status != 405 || (o.allow == ref.allow && o.badAl == "")) {
-			return true
-		}
+	if !same {
+		return false, false
 	}
-	sig, what := ws.classify(app, ci, tbl, mi, pi, ref, o)
-	a.violate(sig, what, orderKey(tbl, ci, ctxKind, mi, pi), func() (any, any, any) {
-		return caseOf(tbl, ci, ctxKind, mi, pi), obsOf(o, tbl), expOf(ref, tbl)
+	if !ref.spec {
+		return true, true
+	}
+	return o.status == ref.status && (ref.status != 405 || (o.allow == ref.allow && o.badAl == "")), false
+}
+
+// judge compares one observation with the reference; true = conforms (or unspecified).
+func (ws *wstate) judge(app *fiber.App, ci, ctxKind int, tbl []entry, late, rm, pi int, ref *refResult, o *observed) bool {
+	a := ws.acc
+	ok, unspec := ws.conforms(ref, o)
+	if unspec {
+		a.unspecified++
+	}
+	if ok {
+		return true
+	}
+	m := stackIdx[ci][rm]
+	sig, what := ws.classify(app, ci, tbl, m, pi, ref, o)
+	if strings.HasPrefix(sig, "override-") && !ws.explainedByIndexReuse(app, ci, tbl, m, pi, o) {
+		// the classes above name the two known mechanisms (cursor index kept across bucket / method-stack switches,
+		// handlers merged into one route object); a run they do not reproduce is another defect
+		sig += " beyond-index-reuse-and-merge"
+		what += " -- but the handlers that ran are NOT the ones obtained by continuing at the old numeric index in the bucket / method stack of the new path and method: another mechanism is at work"
+	}
+	if late > 0 || cfgs[ci].Methods != 0 {
+		// the observation buffers and the registration bookkeeping belong to the app under test: keep them
+		tr, raw := append([]uint8(nil), o.trace...), append([]uint8(nil), o.raw...)
+		rt, hi, ovf, brk := ws.rt, ws.hi, ws.overflow, ws.broken
+		if late > 0 && ws.variantConforms(tbl, 0, ci, ctxKind, rm, pi) {
+			sig += " only-with=registration-after-startup"
+		} else if bc := baseCfg(ci); bc != ci && ws.variantConforms(tbl, late, bc, ctxKind, rm, pi) {
+			sig += " only-with=custom-request-methods"
+		}
+		o.trace, o.raw = tr, raw
+		ws.rt, ws.hi, ws.overflow, ws.broken = rt, hi, ovf, brk
+	}
+	a.violate(sig, what, orderKey(tbl, late, ci, ctxKind, rm, pi), func() (any, any, any) {
+		return caseOf(tbl, late, ci, ctxKind, rm, pi), obsOf(o, tbl, ci), expOf(ref, ci)
 	})
 	return false
 }
 
+// baseCfg: the configuration with the same routing flags and the default method list.
+func baseCfg(ci int) int {
+	c := cfgs[ci]
+	c.Methods = 0
+	for i, x := range cfgs {
+		if x == c {
+			return i
+		}
+	}
+	return ci
+}
+
+// variantConforms re-runs one case on a fresh app with another registration time (late) or configuration and tells
+// whether that variant conforms (false when the variant cannot be built or the method does not exist there).
+func (ws *wstate) variantConforms(tbl []entry, late, ci, ctxKind, rm, pi int) bool {
+	m := stackIdx[ci][rm]
+	if m < 0 {
+		return false
+	}
+	for _, e := range tbl {
+		if !kindValid[ci][e.kind] {
+			return false
+		}
+	}
+	app := ws.newApp(cfgs[ci], ctxKind == 1)
+	early := len(tbl) - late
+	ws.registerRange(app, tbl, 0, early)
+	h := app.Handler()
+	if late > 0 {
+		ws.registerRange(app, tbl, early, len(tbl))
+		app.RebuildTree()
+	}
+	ref := refDispatch(ci, tbl, m, int(pathCanon[ci][pi]))
+	o := ws.call(h, ws.reqs[rm][pi], tbl, ci)
+	ok, _ := ws.conforms(&ref, &o)
+	return ok
+}
+
+// entryID orders entries by (kind, pattern, behaviour, chain length): 5+5+4+1 bits.
 func entryID(e entry) int {
-	return ((int(e.kind)*len(patterns)+int(e.pat))*nBeh+int(e.beh))*nLens + int(e.cl)
+	return ((int(e.kind)<<5|int(e.pat))<<4|int(e.beh))<<1 | int(e.cl)
 }
 
 // orderKey gives a total order on cases so that the example kept per signature is the same on every run
 // (smallest table first, then default ctx / default config first).
-func orderKey(tbl []entry, ci, ctxKind, mi, pi int) uint64 {
+func orderKey(tbl []entry, late, ci, ctxKind, rm, pi int) uint64 {
 	k := uint64(len(tbl))
 	for i := 0; i < maxLen; i++ {
-		k <<= 12
+		k <<= 15
 		if i < len(tbl) {
 			k |= uint64(entryID(tbl[i]))
 		}
 	}
+	k = k<<2 | uint64(late)
 	k = k<<1 | uint64(ctxKind)
-	k = k<<3 | uint64(ci)
-	k = k<<2 | uint64(mi)
+	k = k<<4 | uint64(ci)
+	k = k<<4 | uint64(rm)
 	k = k<<5 | uint64(pi)
 	return k
 }
 
-func program(tbl []entry) []string {
+func program(tbl []entry, late int) []string {
 	var out []string
 	for i, e := range tbl {
+		if late > 0 && i == len(tbl)-late {
+			out = append(out, "-- app.Handler(); one round of requests; the entries below are registered now, then app.RebuildTree() --")
+		}
 		out = append(out, fmt.Sprintf("h%d: %s", i, e.String()))
 	}
 	return out
 }
 
-func caseOf(tbl []entry, ci, ctxKind, mi, pi int) map[string]any {
+func caseOf(tbl []entry, late, ci, ctxKind, rm, pi int) map[string]any {
 	ctx := "default"
 	if ctxKind == 1 {
 		ctx = "custom (NewCtxFunc, struct embedding DefaultCtx)"
 	}
-	return map[string]any{
-		"program": program(tbl),
+	m := map[string]any{
+		"program": program(tbl, late),
 		"config":  cfgs[ci],
 		"ctx":     ctx,
-		"request": fiber.DefaultMethods[reqMethods[mi]] + " " + reqPaths[pi],
+		"request": methUniverse[rm] + " " + reqPaths[pi],
 	}
+	if ml := cfgs[ci].Methods; ml != 0 {
+		m["request_methods"] = methodLists[ml]
+	}
+	return m
 }
 
 func traceNames(t []uint8) []string {
@@ -426,9 +567,9 @@ func traceNames(t []uint8) []string {
 	return out
 }
 
-func allowNames(mask uint16) []string {
+func allowNames(ci int, mask uint16) []string {
 	out := []string{}
-	for i, n := range fiber.DefaultMethods {
+	for i, n := range mlist[ci] {
 		if mask&(1<<uint(i)) != 0 {
 			out = append(out, n)
 		}
@@ -436,7 +577,7 @@ func allowNames(mask uint16) []string {
 	return out
 }
 
-func obsOf(o *observed, tbl []entry) map[string]any {
+func obsOf(o *observed, tbl []entry, ci int) map[string]any {
 	m := map[string]any{"handlers_run": traceNames(o.trace), "status": o.status}
 	for _, e := range tbl {
 		if e.chain() > 1 { // h<registration>.<index in its call>
@@ -453,7 +594,7 @@ func obsOf(o *observed, tbl []entry) map[string]any {
 		}
 	}
 	if o.allow != 0 || o.badAl != "" {
-		m["allow"] = allowNames(o.allow)
+		m["allow"] = allowNames(ci, o.allow)
 	}
 	if o.badAl != "" {
 		m["allow_malformed"] = o.badAl
@@ -464,17 +605,19 @@ func obsOf(o *observed, tbl []entry) map[string]any {
 	return m
 }
 
-func expOf(r *refResult, _ []entry) map[string]any {
+func expOf(r *refResult, ci int) map[string]any {
 	m := map[string]any{"handlers_run": traceNames(r.trace[:r.n])}
 	switch {
 	case r.reply:
 		m["status"] = 200
+	case r.failed:
+		m["status"] = "not judged (the last handler returned an error without calling Next: the chain ends there)"
 	case !r.spec:
 		m["status"] = "unspecified (an endpoint ran and called Next, or the only matching endpoint is registered before the override)"
 	default:
 		m["status"] = r.status
 		if r.status == 405 {
-			m["allow_set"] = allowNames(r.allow)
+			m["allow_set"] = allowNames(ci, r.allow)
 		}
 	}
 	return m
@@ -497,7 +640,8 @@ type sampleRec struct {
 type acc struct {
 	samples                                                   []sampleRec
 	apps, evals, nontrivial, bucketed, overrides, unspecified int64
-	multiRun, chainRun, exp405                                int64
+	multiRun, chainRun, exp405, unknownMethod                 int64
+	famEvals, famHits                                         [nFams]int64
 	outc                                                      [5][6][4]int64
 	viol                                                      map[string]*vrec
 }
@@ -543,7 +687,7 @@ func alphabetOf(pats []string, kinds int) []entry {
 	for k := 0; k < kinds; k++ {
 		ks = append(ks, k)
 	}
-	for b := 0; b < nBeh; b++ {
+	for b := 0; b < nFullBeh; b++ {
 		bs = append(bs, b)
 	}
 	return alphabetOver(ks, pats, bs, 1)
@@ -578,6 +722,10 @@ type item struct {
 	prefix []entry // fixed leading entries
 	last   []entry // every choice of the final entry (nil: the table is just the prefix)
 	paths  []int   // indices into reqPaths of the requests fired at each table
+	meths  []int   // request-method ids fired at each table
+	cfgs   []int   // indices into cfgs
+	late   int     // number of trailing entries registered after start-up (0: everything before)
+	fam    int     // side family the item belongs to (famMain: the main product)
 }
 
 func pathIdx(sel []string) []int {
@@ -613,30 +761,42 @@ func main() {
 		fmt.Fprintf(os.Stderr, "tables+selfcheck: %v\n", time.Since(r.Start))
 	}
 
-	if (nKinds*len(patterns)*nBeh*nLens) > 1<<12 || len(reqPaths) > 1<<5 {
+	if nKinds > 1<<5 || len(patterns) > 1<<5 || nBeh > 1<<4 || nLens > 2 || len(reqPaths) > 1<<5 || len(cfgs) > 1<<4 || len(methUniverse) > 1<<4 {
 		core.Fatal("orderKey fields too narrow for the alphabet")
 	}
-	full := alphabetOf(patterns, nFullKinds)
+	full := alphabetOf(patterns[:nFullPatterns], nFullKinds)
 	sub := alphabetOf(subPatterns, kGRP) // without the group kind
 	fam := alphabetOver(famKinds, famPatterns, famBehs, nLens)
-	allPaths, subPaths, famPaths := pathIdx(reqPaths), pathIdx(subReqPaths), pathIdx(famReqPaths)
-	var items []item
+	allPaths, subPaths, famPaths := pathIdx(reqPaths[:nFullReqPaths]), pathIdx(subReqPaths), pathIdx(famReqPaths)
+	// the side families go first: they are small, and a wall-clock cap on a loaded machine must not lose them
+	items := sideItems(r.Quick())
+	nSide := len(items)
 	if !r.Quick() { // three entries over the sub-alphabet (first: these are the long items)
 		for _, e1 := range sub {
 			for _, e2 := range sub {
-				items = append(items, item{prefix: []entry{e1, e2}, last: sub, paths: subPaths})
+				items = append(items, item{prefix: []entry{e1, e2}, last: sub, paths: subPaths, meths: mainReqMethods, cfgs: mainCfgIdx})
 			}
 		}
 	}
 	for _, e1 := range fam { // three entries, same-path / multi-method family (both tiers)
 		for _, e2 := range fam {
-			items = append(items, item{prefix: []entry{e1, e2}, last: fam, paths: famPaths})
+			items = append(items, item{prefix: []entry{e1, e2}, last: fam, paths: famPaths, meths: mainReqMethods, cfgs: mainCfgIdx})
 		}
 	}
-	items = append(items, item{prefix: nil, paths: allPaths})             // empty table
-	items = append(items, item{prefix: nil, last: full, paths: allPaths}) // one entry
-	for _, e1 := range full {                                             // two entries, full alphabet
-		items = append(items, item{prefix: []entry{e1}, last: full, paths: allPaths})
+	items = append(items, item{prefix: nil, paths: allPaths, meths: mainReqMethods, cfgs: mainCfgIdx})             // empty table
+	items = append(items, item{prefix: nil, last: full, paths: allPaths, meths: mainReqMethods, cfgs: mainCfgIdx}) // one entry
+	for _, e1 := range full {                                                                                     // two entries, full alphabet
+		items = append(items, item{prefix: []entry{e1}, last: full, paths: allPaths, meths: mainReqMethods, cfgs: mainCfgIdx})
+	}
+	if only := os.Getenv("VERIF_C01_ONLY"); only != "" { // developer aid: "side" = the side families, or one family name
+		var keep []item
+		for i, it := range items {
+			if i < nSide && (only == "side" || only == famNames[it.fam]) {
+				keep = append(keep, it)
+			}
+		}
+		items = keep
+		r.Cap("developer run: only " + only)
 	}
 	if r.Deadline.IsZero() { // internal cap: a run that cannot finish in its tier ends with exhaustive:false
 		// (nominal: quick ~20 s, thorough ~7 min on 16 idle cores; the caps leave room for a shared machine)
@@ -694,6 +854,11 @@ func main() {
 				core.Fatal("vacuous exploration: counter %s is zero", c)
 			}
 		}
+		for f := 1; f < nFams; f++ {
+			if c := "side_" + famNames[f] + "_evaluations_deciding_the_new_dimension"; r.P.Counters[c] == 0 {
+				core.Fatal("vacuous exploration: counter %s is zero", c)
+			}
+		}
 	}
 
 	// samples: conforming executions with at least two handlers and an effective override (6 smallest mixed keys)
@@ -714,14 +879,15 @@ func main() {
 		"family_behaviours":         []string{behNames[bReply], behNames[bNext]},
 		"family_handlers_per_call":  chainLens[:],
 		"family_request_paths":      famReqPaths,
-		"patterns":                  patterns,
-		"behaviours":                behNames[:],
+		"patterns":                  patterns[:nFullPatterns],
+		"behaviours":                behNames[:nFullBeh],
 		"request_methods":           []string{"GET", "POST", "HEAD", "PUT"},
-		"request_paths":             reqPaths,
+		"request_paths":             reqPaths[:nFullReqPaths],
 		"configs":                   8,
 		"ctx_kinds":                 2,
+		"side_families":             sideBounds(r.Quick()),
 	}
-	rule := fmt.Sprintf("every sequence (duplicates allowed) of <=2 entries over %d entries (5 kinds x %d patterns x 5 behaviours)", len(full), len(patterns))
+	rule := fmt.Sprintf("every sequence (duplicates allowed) of <=2 entries over %d entries (5 kinds x %d patterns x 5 behaviours)", len(full), nFullPatterns)
 	rule += fmt.Sprintf(" plus every sequence of exactly 3 entries over the %d-entry same-path/multi-method family (kinds %v x the escaped/unescaped twin patterns %q x behaviours reply/Next x %v handlers per registration call; requests: 4 methods x paths %v)", len(fam), kindNamesOf(famKinds), famPatterns, chainLens, famReqPaths)
 	if !r.Quick() {
 		bounds["max_entries_sub_alphabet"] = 3
@@ -731,7 +897,8 @@ func main() {
 		bounds["sub_request_paths"] = subReqPaths
 		rule += fmt.Sprintf(" plus every sequence of exactly 3 entries over the %d-entry sub-alphabet (4 kinds without the group kind x patterns %v x 5 behaviours; requests: 4 methods x paths %v)", len(sub), subPatterns, subReqPaths)
 	}
-	rule += fmt.Sprintf("; each table is built once per config (8) and ctx kind (2) and receives all its requests (<=2 entries: %d = 4 methods x %d paths); the observed handler trace/status/Allow set is compared with a linear reference dispatcher using the real Route.match on single-route apps. A case is non-trivial when the reference runs at least one handler or expects 405", len(reqMethods)*len(reqPaths), len(reqPaths))
+	rule += "; plus the side families (bounds.side_families): " + sideRule()
+	rule += fmt.Sprintf("; each table is built once per config (8; side families: their own list) and ctx kind (2) and receives all its requests (<=2 entries: %d = 4 methods x %d paths); the observed handler trace/status/Allow set is compared with a linear reference dispatcher using the real Route.match on single-route apps. A case is non-trivial when the reference runs at least one handler or expects 405", len(mainReqMethods)*nFullReqPaths, nFullReqPaths)
 	r.Finish(core.Evidence{
 		Level:      "exploration",
 		Exhaustive: true,
@@ -747,6 +914,8 @@ func main() {
 			"detection path / path of a raw request path come from the real configDependentPaths (validated at start-up against live contexts, also after Path() overrides)",
 			"handler-level drive through app.Handler() on a fake connection; one handler per registration call except in the same-path family, where a call passes 1 or 5 handlers (all but the last are Next() pass-throughs) and a registration counts as run when its whole chain ran in order",
 			"status/Allow at the end of a chain are only judged when no endpoint (non-Use entry) ran and no same-method endpoint for the final path exists anywhere in the table; otherwise the statement is silent (counted in unspecified_skipped)",
+			"side families: Method(x) with x not among the app's RequestMethods is 'no override' (documented); a request whose method the app does not have (501 in fiber) and the status after a handler returned an error without calling Next are not judged; a registration after start-up is only judged after app.RebuildTree()",
+			"a deviation that carries one of the 'override-...' class names of the two known mechanisms is additionally replayed on a ~40-line model of 'continue at the old numeric index in the slice of the new bucket / method stack, walking merged handler lists without re-matching' over the app's REAL bucket slices; if the model does not reproduce the handlers that ran, the signature gets the suffix beyond-index-reuse-and-merge (never matched by a known finding)",
 		},
 		MinOutcomes: 6,
 	})
@@ -760,9 +929,10 @@ func kindNamesOf(ks []int) []string {
 	return out
 }
 
-// selfCheck validates the path table against live contexts: for every config, ctx kind and request path
-// the context of a real request must carry exactly VerifPaths(raw), and Path(override) must lead
-// to VerifPaths(override). A disagreement is a harness error, never a violation.
+// selfCheck validates the path table against live contexts: for every config, ctx kind and request (method, path)
+// the context of a real request must carry exactly VerifPaths(raw) and the stack index of the method, and the
+// override behaviours of the main product must lead to VerifPaths(target) / the target method. A disagreement is
+// a harness error, never a violation.
 func selfCheck() {
 	for ci, c := range cfgs {
 		for ctxKind := 0; ctxKind < 2; ctxKind++ {
@@ -772,37 +942,44 @@ func selfCheck() {
 					return &customCtx{DefaultCtx: *fiber.NewDefaultCtx(a)}
 				})
 			}
-			var got [3][3]string
-			var hashes [3]int
-			var meth [2]int
-			probe := func(cx fiber.Ctx) {
-				got[0][0], got[0][1], hashes[0], meth[0] = fiber.VerifCtxPaths(cx)
-				cx.Path("/abc")
-				got[1][0], got[1][1], hashes[1], _ = fiber.VerifCtxPaths(cx)
-				cx.Path("/x")
-				got[2][0], got[2][1], hashes[2], _ = fiber.VerifCtxPaths(cx)
-				cx.Method("POST")
-				_, _, _, meth[1] = fiber.VerifCtxPaths(cx)
-			}
 			app.Handler()
 			var fctx fasthttp.RequestCtx
-			for _, m := range reqMethods {
+			for rm, name := range methUniverse {
+				m := stackIdx[ci][rm]
+				if m < 0 {
+					continue
+				}
 				for pi, raw := range reqPaths {
-					// a live context exactly as the request handler acquires it (the router itself is not involved)
-					fx.CallInto(&fctx, func(f *fasthttp.RequestCtx) {
-						cx := app.AcquireCtx(f)
-						probe(cx)
-						app.ReleaseCtx(cx)
-					}, fx.Req(fiber.DefaultMethods[m], uriOf(raw)), nil, false)
-					want := [3]int{pi, idxABC, idxX}
-					for k, w := range want {
-						if got[k][0] != pathDet[ci][w] || got[k][1] != pathPath[ci][w] || hashes[k] != pathHash[ci][w] {
-							core.Fatal("path table disagrees with live ctx: cfg=%+v raw=%q step=%d live=(%q,%q,%d) table=(%q,%q,%d)",
-								c, raw, k, got[k][0], got[k][1], hashes[k], pathDet[ci][w], pathPath[ci][w], pathHash[ci][w])
-						}
-					}
-					if meth[0] != m || meth[1] != mPOST {
-						core.Fatal("method index disagrees: %v", meth)
+					// (the override behaviours of the side families are NOT validated here: what Path(x) / Method(x)
+					// must lead to is "the routes matching x", which the dispatch comparison itself decides)
+					for b := bNext; b < nFullBeh; b++ {
+						// a live context exactly as the request handler acquires it (the router itself is not involved)
+						fx.CallInto(&fctx, func(f *fasthttp.RequestCtx) {
+							cx := app.AcquireCtx(f)
+							defer app.ReleaseCtx(cx)
+							check := func(step string, wp, wm int) {
+								d, p, h, gm := fiber.VerifCtxPaths(cx)
+								if d != pathDet[ci][wp] || p != pathPath[ci][wp] || h != pathHash[ci][wp] || gm != wm {
+									core.Fatal("tables disagree with live ctx: cfg=%+v %s %q %s: live=(%q,%q,%d,method %d) table=(%q,%q,%d,method %d)",
+										c, name, raw, step, d, p, h, gm, pathDet[ci][wp], pathPath[ci][wp], pathHash[ci][wp], wm)
+								}
+							}
+							check("as received", pi, m)
+							wp, wm := pi, m
+							if t := behPathTarget[b]; t != "" {
+								cx.Path(t)
+								wp = behPathIdx[b]
+							}
+							if t := behMethTarget[b]; t != "" {
+								cx.Method(t)
+								for nm, x := range mlist[ci] {
+									if x == t {
+										wm = nm
+									}
+								}
+							}
+							check("after "+behNames[b], wp, wm)
+						}, fx.Req(name, uriOf(raw)), nil, false)
 					}
 				}
 			}
@@ -831,14 +1008,14 @@ func enumerate(r *core.Run, items []item) *acc {
 		}
 		it := items[i]
 		if it.last == nil {
-			ws.runTable(it.prefix, it.paths, l, false)
+			ws.runTable(it.prefix, &it, false)
 			return
 		}
 		tbl := make([]entry, len(it.prefix)+1)
 		copy(tbl, it.prefix)
 		for j, e := range it.last {
 			tbl[len(it.prefix)] = e
-			ws.runTable(tbl, it.paths, l, i%37 == 5 && j%41 == 7)
+			ws.runTable(tbl, &it, i%37 == 5 && j%41 == 7)
 		}
 	})
 	tot := newAcc()
@@ -853,6 +1030,11 @@ func enumerate(r *core.Run, items []item) *acc {
 		tot.multiRun += a.multiRun
 		tot.chainRun += a.chainRun
 		tot.exp405 += a.exp405
+		tot.unknownMethod += a.unknownMethod
+		for f := range a.famEvals {
+			tot.famEvals[f] += a.famEvals[f]
+			tot.famHits[f] += a.famHits[f]
+		}
 		tot.samples = append(tot.samples, a.samples...)
 		for s := range a.outc {
 			for n := range a.outc[s] {
@@ -894,6 +1076,11 @@ func export(r *core.Run, a *acc) {
 	r.Add("evaluations_with_two_or_more_registrations_run", a.multiRun)
 	r.Add("evaluations_running_a_multi_handler_registration", a.chainRun)
 	r.Add("evaluations_expecting_405", a.exp405)
+	r.Add("requests_with_a_method_the_app_does_not_have", a.unknownMethod)
+	for f := 1; f < nFams; f++ {
+		r.Add("side_"+famNames[f]+"_evaluations", a.famEvals[f])
+		r.Add("side_"+famNames[f]+"_evaluations_deciding_the_new_dimension", a.famHits[f])
+	}
 	stNames := [5]string{"200", "404", "405", "none", "other"}
 	ovNames := [4]string{"no-override-handler", "path-override-handler", "method-override-handler", "path+method-override-handlers"}
 	for s := range a.outc {
